@@ -1,4 +1,5 @@
 pub mod buztable;
 pub mod chunker;
 pub mod codec;
+pub mod enc;
 pub mod model;
